@@ -73,7 +73,7 @@ Proof.
   intros root r rs Hst Hnf Hlit Hgen _ Habs.
   destruct (straight_IsChain root Hst Hnf) as (l & HC & Hok & Hcl).
   assert (Hlits : lits_ok l) by (apply chain_lits_ok; lia).
-  set (pos0 := (root_ctx, 0) : loc).
+  set (pos0 := (root_ctx, root_line) : loc).
   set (code := chain_code l [] pos0).
   set (regsF := chain_regs l []).
   set (rcode := chain_rcode l pos0).
@@ -111,7 +111,7 @@ Proof.
   { unfold prg. rewrite Hr. cbn. exact Pm. }
   (* --- the flattener --- *)
   unfold abstract_source in Habs. rewrite (F_chain root l HC Hlits) in Habs.
-  cbn [f_pos f_cur b_vars] in Habs. fold pos0 in Habs. change root_ctx_name with root_ctx in Habs.
+  cbn [f_pos f_cur b_vars] in Habs. fold pos0 in Habs. change root_ctx_name with root_ctx in Habs. change root_ctx_line with root_line in Habs.
   fold pos0 in Habs. fold rcode varsF in Habs.
   cbn [fapp f_done f_cur b_name b_params b_code b_labels b_targets b_vars bemit finish_routine app forallb
        labels_set r_labels andb] in Habs.
